@@ -33,7 +33,12 @@ Open Scope Z_scope.
 
 Inductive recalc_when := DEFAULT | NEVER | MANUAL_UPDATES.
 
-Record cfg := { when : recalc_when; deps : list Z; fcols : list (Z * Z) }.
+(* Which of the repairs proposed in /verif/notes/proposed_fixes/C15-*.diff the modelled source contains
+   (all false = the source as it is; the harness finds out by replaying the witnesses of the known findings). *)
+Record fixes := { fx_add : bool; fx_lost : bool; fx_stale : bool; fx_trim : bool }.
+Definition no_fixes : fixes := {| fx_add := false; fx_lost := false; fx_stale := false; fx_trim := false |}.
+
+Record cfg := { when : recalc_when; deps : list Z; fcols : list (Z * Z); fx : fixes }.
 
 Definition trc : Z := 0.
 Definition feval (b : Z) : Z := b / 2.
@@ -139,9 +144,10 @@ Definition schema_fstale (g : cfg) (m : mech) (c : Z) : Z -> bool :=
 
 Definition mech_doc (g : cfg) (m : mech) (d : daction) : mech :=
   match d with
-  | DAdd _ recs =>     (* Engine.add_records: invalidate_records(table, new rows), every column; no prevent_recalc *)
+  | DAdd _ recs =>     (* Engine.add_records: invalidate_records(table, new rows), every column; no prevent_recalc
+                          (C15-add-with-value.diff: prevent_recalc for the trigger columns of the new rows) *)
       {| dirty := set_or (dirty m) (ids recs) (existsb (reach g m) (table_cols g));
-         prevent := prevent m; stale := stale m; fstale := fstale m |}
+         prevent := set_or (prevent m) (ids recs) (fx_add (fx g)); stale := stale m; fstale := fstale m |}
   | DRem rs =>         (* BulkRemoveRecord: invalidate_records(table, removed rows) *)
       {| dirty := set_or (dirty m) rs (existsb (reach g m) (table_cols g));
          prevent := prevent m; stale := stale m; fstale := fstale m |}
@@ -164,31 +170,42 @@ Definition trim_recs (t : tbl) (cols' : list Z) (recs : list wrec) : list wrec :
   filter (fun w => existsb (changed t w) cols') recs.
 Definition nonnil {A} (l : list A) : bool := match l with [] => false | _ => true end.
 
+(* patched doBulkAddOrReplace: un-prevent when no value was supplied (and not NEVER), or for a data-cleaning column *)
+Definition add_recalc (g : cfg) (cols : list Z) : bool :=
+  (negb (memz trc cols) && negb (is_never g)) || (memz trc cols && selfdep g).
+
 Definition mech_user (g : cfg) (t : tbl) (m : mech) (a : uaction) : mech :=
   match a with
   | UAdd cols recs =>  (* doBulkAddOrReplace: doc action, then invalidate_records(data_cols_to_recompute) *)
       let m1 := mech_doc g m (DAdd cols recs) in
       {| dirty := set_or (dirty m1) (ids recs) (negb (memz trc cols) && negb (is_never g));
-         prevent := prevent m1; stale := stale m1; fstale := fstale m1 |}
+         (* C15-add-with-value.diff lifts the exemption again for the columns to be computed *)
+         prevent := fun r => prevent m1 r && negb (fx_add (fx g) && add_recalc g cols && memz r (ids recs));
+         stale := stale m1; fstale := fstale m1 |}
   | UUpd cols recs =>  (* doBulkUpdateRecord *)
       let cols' := trim_cols t cols recs in
       let recs' := trim_recs t cols' recs in
       let m1 := mech_doc g m (DUpd cols' recs') in
       {| dirty := set_or (dirty m1) (ids recs') (nonnil cols' && is_manual g);
-         prevent := fun r => prevent m1 r &&
+         (* C15-explicit-value-trimmed.diff: every supplied trigger value exempts its cell (not self-dependent) *)
+         prevent := fun r => (prevent m1 r ||
+                              (fx_trim (fx g) && (memz trc cols && negb (selfdep g)) && memz r (ids recs))) &&
                              negb (nonnil cols' && memz trc cols' && selfdep g && memz r (ids recs'));
          stale := stale m1; fstale := fstale m1 |}
   | UDocs ds => fold_left (mech_doc g) ds m
   end.
 
-Definition clear_prevent (m : mech) : mech :=
-  {| dirty := dirty m; prevent := fun _ => false; stale := stale m; fstale := fstale m |}.
+(* start of a user action.  C15-exemption-lost.diff: the exempted cells are first taken out of the dirty set;
+   C15-stale-edge.diff: the trigger edges have been rebuilt after the previous user action. *)
+Definition clear_prevent (g : cfg) (m : mech) : mech :=
+  {| dirty := fun r => dirty m r && negb (fx_lost (fx g) && prevent m r); prevent := fun _ => false;
+     stale := fun c => stale m c && negb (fx_stale (fx g)); fstale := fstale m |}.
 
 (* apply_user_actions: for each user action clear the prevent map, apply; no recalculation in between. *)
 Fixpoint mech_actions (g : cfg) (t : tbl) (m : mech) (b : bundle) : tbl * mech :=
   match b with
   | [] => (t, m)
-  | a :: b' => mech_actions g (data_user t a) (mech_user g t (clear_prevent m) a) b'
+  | a :: b' => mech_actions g (data_user t a) (mech_user g t (clear_prevent g m) a) b'
   end.
 
 (* _bring_all_up_to_date / _recompute_step: dirty rows minus exempt rows, existing rows only. *)
@@ -362,11 +379,11 @@ Fixpoint flag_actions (g : cfg) (t : tbl) (m : mech) (b : bundle) : flags :=
   match b with
   | [] => no_flags
   | a :: b' =>
-      let mc := clear_prevent m in
+      let mc := clear_prevent g m in
       let m' := mech_user g t mc a in
       let t' := data_user t a in
       or_flags {| fl_add := unprotected t' m' (xadd g a);
-                  fl_lost := existsb (fun r => dirty m r && prevent m r) (rows t);
+                  fl_lost := negb (fx_lost (fx g)) && existsb (fun r => dirty m r && prevent m r) (rows t);
                   fl_stale := stale_user_k true false g t mc a;
                   fl_fstale := stale_user_k false true g t mc a;
                   fl_trim := unprotected t' m' (xupd g a) |}
